@@ -53,6 +53,12 @@ def run(ctx):
     r08_5(ctx, rep, roles)
     r08_7(ctx, rep, W)
     r08_8(ctx, rep, S, L, D, W)
+    # the decoder's grouping of ops into member deltas (a valid delta must decode: duplicate-member guard keyed by the full id)
+    from . import c03
+    c03.r03_3(ctx, rep, roles)
+    ctx.report.rules[-1].id = "R08.9(R03.3)"
+    from .. import identity
+    identity.check_keys(ctx, rep, "C08", "R08.10", ["builder", "digest"])
 
 
 def items_of(out, variant, exit_kind="return"):
